@@ -62,6 +62,38 @@ class SegStream(object):
         self.closed = True
 
 
+GAP = object()
+
+
+class GapStream(SegStream):
+    """A segmented stream with pauses: a GAP between two segments means that the following bytes have not arrived yet when the
+    reader next asks select() (which then reports nothing readable, once); a read() at a GAP is a blocking read - the data
+    arrives and is returned."""
+
+    def __init__(self, segments, eof=True, spin_budget=1000):
+        SegStream.__init__(self, [], eof=eof, spin_budget=spin_budget)
+        self.segs = collections.deque(s if s is GAP else bytes(s) for s in segments if s is GAP or len(s))
+        self.pauses = 0
+
+    def ready(self):
+        if self.segs and self.segs[0] is GAP:
+            self.segs.popleft()
+            self.pauses += 1
+            return False
+        return bool(self.segs) or self.eof
+
+    def available(self):
+        return any(x is not GAP for x in self.segs)
+
+    def read(self, n=-1):
+        while self.segs and self.segs[0] is GAP:
+            self.segs.popleft()
+        return SegStream.read(self, n)
+
+    def remaining(self):
+        return b''.join(x for x in self.segs if x is not GAP)
+
+
 class WouldBlock(BaseException):
     """A read that would block forever (nothing buffered, no end of stream)."""
 
@@ -112,7 +144,10 @@ class FakeSelect(object):
         ready = []
         for s in r:
             inner = getattr(s, 'actual_file_object', s)
-            if isinstance(inner, SegStream):
+            if isinstance(inner, GapStream):
+                if inner.ready():
+                    ready.append(s)
+            elif isinstance(inner, SegStream):
                 if inner.available() or inner.eof:
                     ready.append(s)
             else:
